@@ -490,11 +490,16 @@ fn format_socket_addr(
 fn parse_socket_addr<T: FromStr>(s: &str) -> Option<(T, u16)> {
     let (bracketed_addr, port) = s.rsplit_once(':')?;
 
-    if !bracketed_addr.starts_with('[') && bracketed_addr.ends_with(']') {
+    // The address must be enclosed in brackets, nothing may be silently dropped.
+    if !(bracketed_addr.starts_with('[') && bracketed_addr.ends_with(']')) {
         return None;
     }
 
     let scion_addr: T = bracketed_addr[1..bracketed_addr.len() - 1].parse().ok()?;
+    // `u16::from_str` accepts a leading `+`, which is not part of the address format.
+    if port.starts_with('+') {
+        return None;
+    }
     let port: u16 = port.parse().ok()?;
 
     Some((scion_addr, port))
